@@ -126,7 +126,7 @@ def run_requests(project_dir, requests, timeout=900):
     if p.returncode != 0:
         raise ReplayError("replay crate failed (rc=%d): %s" % (p.returncode, p.stderr[-3000:]))
     out = [None] * len(requests)
-    for l in p.stdout.splitlines():
+    for l in p.stdout.split("\n"):
         if "\t" in l:
             i, h = l.split("\t", 1)
             out[int(i)] = bytes.fromhex(h).decode("utf-8")
